@@ -86,6 +86,32 @@ class LibMixin:
         """the concrete value boxed at this call site (the boxing happened in coerce_args, so it is re-evaluated)"""
         return self.ev(st, argnode)
 
+    # reflect.ValueOf(p).Elem().Interface() with p a pointer: the value p points to, boxed
+    def lib_reflect_ValueOf(self, st, recv, argv, e):
+        x = argv[0]
+        r = IfaceV(self.refof(x), getattr(x, 'tag', None) if isinstance(x, IfaceV) else None, None)
+        r.reflect_of = x
+        return r
+
+    def lib_reflect_Value_Elem(self, st, recv, argv, e):
+        v = recv[0] if isinstance(recv, tuple) else recv
+        x = getattr(v, 'reflect_of', None)
+        if isinstance(x, IfaceV) and isinstance(getattr(x, 'concrete', None), PtrV): x = x.concrete
+        if not isinstance(x, PtrV):
+            raise Unsupported('reflect.Value.Elem of something that is not a known pointer')
+        self.nilcheck(st, x, e.get('line'))
+        val = self.load_ptr(st, x)
+        r = IfaceV(fresh('refl'), None, None)
+        r.reflect_val = (val, x.etid)
+        return r
+
+    def lib_reflect_Value_Interface(self, st, recv, argv, e):
+        v = recv[0] if isinstance(recv, tuple) else recv
+        rv = getattr(v, 'reflect_val', None)
+        if rv is None:
+            raise Unsupported('reflect.Value.Interface of an untracked value')
+        return self.box(st, rv[0], rv[1])
+
     def lib_reflect_DeepEqual(self, st, recv, argv, e):
         """reflect.DeepEqual(x, zero) with zero the zero value of a pointer/interface type: x is nil.  (G0 identifies an
         interface holding a typed nil pointer with nil; for the node slices this is used on, entries are set to untyped nil.)"""
